@@ -28,7 +28,7 @@ MAP = {
  'transport-dropnode-keeps-address': ['C14'], 'transport-wrong-sender': ['C14'], 'tcp-no-read-timeout': ['C14'], 'transport-send-true-when-connecting': ['C14'],
  'sync-shared-result': ['C19'], 'queue-drops-when-busy': ['C19'], 'callback-on-queue-full-and-enqueue': ['C19', 'C02'], 'forwarded-reply-wrong-request': ['C19', 'C02'],
  'backoff-no-truncate': ['C05'],
- 'reqid-not-unique': ['C06'], 'transfer-not-cancelled-on-disconnect': ['C09', 'C01'], 'snapshot-pieces-not-acknowledged': ['C05'], 'transfer-continued-across-terms': ['C01', 'C09'], 'reply-term-ignored': ['C04', 'C01'], 'snapshot-speculative-members': ['C10'], 'truncate-always': ['C04', 'C18'], 'snapshot-install-clears-log': ['C04', 'C01'], 'snapshot-failed-load-acked': ['C04', 'C09'],
+ 'reqid-not-unique': ['C06'], 'transfer-not-cancelled-on-connect': ['C09'], 'transfer-not-cancelled-on-disconnect': ['C09', 'C01'], 'snapshot-pieces-not-acknowledged': ['C05'], 'transfer-continued-across-terms': ['C01', 'C09'], 'reply-term-ignored': ['C04', 'C01'], 'snapshot-speculative-members': ['C10'], 'truncate-always': ['C04', 'C18'], 'snapshot-install-clears-log': ['C04', 'C01'], 'snapshot-failed-load-acked': ['C04', 'C09'],
 }
 
 # mutants judged NOT to break any listed property (kept in the table for honesty: "not detected" is the right answer)
@@ -39,6 +39,7 @@ BENIGN = {
  'queue-not-drained-follower': 'one forwarded command per tick instead of all: slower, same outcome',
  'stale-leader-pointer': 'a candidate keeps naming the old leader until the election ends; no listed property speaks about it',
  'tcp-length-unsigned-recv': 'a negative length is read as a huge one: the receiver waits instead of disconnecting, which C13 allows (nothing further is delivered)',
+ 'transfer-not-cancelled-on-disconnect': 'covered by the restart on every new connection and by the lazy cancel in the next append_entries round',
  'snapshot-offset-not-restarted': 'the receiver drops chunks that do not continue its buffer and the sender starts over after the last chunk: slower, same outcome',
  'snapshot-transfer-skips-first-chunk-check': 'with FIFO connections a non-first chunk never meets an empty buffer (the sender restarts at the first chunk after every disconnect)',
 }
